@@ -79,7 +79,8 @@ class Proc:
             try:
                 e = json.loads(line)
                 if e.get("kind") == "error":
-                    self.err = e.get("type", "")
+                    # a lock error: the error type monorail uses for it, or any error whose text speaks of the lock
+                    self.err = "server" if (e.get("type") == "server" or "lock" in (str(e.get("type", "")) + " " + str(e.get("message", ""))).lower()) else e.get("type", "")
             except ValueError:
                 pass
 
@@ -287,7 +288,7 @@ def nested_scenario(bins, idx, rng):
                 try:
                     e = json.loads(line)
                     if e.get("kind") == "error":
-                        err = e.get("type", "")
+                        err = "server" if (e.get("type") == "server" or "lock" in (str(e.get("type", "")) + " " + str(e.get("message", ""))).lower()) else e.get("type", "")
                 except ValueError:
                     pass
             procs.append({"p": k + 2, "api": a, "spawn_ts": stamp(pid, "lock.trying") if pid != -1 else spawn_ts + 1, "exit_ts": out.get("t0", exit_ts),
